@@ -14,7 +14,7 @@ import (
 // knownScanKinds lists the scan kinds runScan implements; the contract parser rejects every other word (an unknown
 // kind used to fall through to the writer scan, which found no writer and reported the obligation as discharged).
 var knownScanKinds = map[string]bool{"maprange": true, "gostmts": true, "recoverguard": true, "typekeys": true, "defercalls": true,
-	"assertorder": true, "extcalls": true, "pkgglobals": true, "fieldwriters": true, "globalwriters": true, "structfields": true, "recursive": true, "armeffects": true}
+	"assertorder": true, "extcalls": true, "pkgglobals": true, "fieldwriters": true, "globalwriters": true, "structfields": true, "recursive": true, "armeffects": true, "armcalls": true, "pkgvars": true}
 
 // runScan evaluates one syntactic obligation over the SSA of its package.
 func (p *Program) runScan(sc *Scan) *UnitResult {
@@ -137,6 +137,51 @@ func (p *Program) runScan(sc *Scan) *UnitResult {
 		o.Output = "unknown scan kind " + sc.Kind
 		return res
 	}
+	if sc.Kind == "pkgvars" {
+		// pkgvars <pkg>: v1 v2 ... - the package-level variables of the package are exactly the listed ones. Whatever
+		// one evaluation can leave behind for another evaluation in the same process, outside the objects it was given,
+		// lives in such a variable; a new one needs a disposition (immutable after init / guarded by a lock / ...).
+		have := map[string]bool{}
+		for _, pk := range p.prog.AllPackages() {
+			if pk.Pkg.Path() != sc.Pkg {
+				continue
+			}
+			scope := pk.Pkg.Scope()
+			for _, n := range scope.Names() {
+				if v, ok := scope.Lookup(n).(*types.Var); ok && n != "_" {
+					// variables declared in the contract files themselves (proof harness state) do not count
+					if strings.HasSuffix(p.prog.Fset.Position(v.Pos()).Filename, "_verif.go") {
+						continue
+					}
+					have[n] = true
+					if !allowed[n] {
+						offenders = append(offenders, n+" ("+v.Type().String()+")")
+					}
+				}
+			}
+		}
+		sort.Strings(offenders)
+		var stale []string
+		for _, a := range sc.Allowed {
+			if !have[a] {
+				stale = append(stale, a)
+			}
+		}
+		if len(offenders) == 0 && len(stale) == 0 {
+			o.Status = "unsat"
+			o.Output = fmt.Sprintf("%s has exactly the %d listed package-level variables", sc.Pkg, len(have))
+		} else {
+			o.Status = "sat"
+			o.Output = ""
+			if len(offenders) > 0 {
+				o.Output = "package-level variables without a recorded disposition: " + strings.Join(offenders, ", ")
+			}
+			if len(stale) > 0 {
+				o.Output += " listed but gone: " + strings.Join(stale, ", ")
+			}
+		}
+		return res
+	}
 	if sc.Kind == "structfields" {
 		// structfields <Type>: f1 f2 ... - the named struct type of the package has exactly the listed fields (embedded
 		// fields by their type name). A field that is added has no recorded disposition; one that is removed leaves
@@ -176,7 +221,7 @@ func (p *Program) runScan(sc *Scan) *UnitResult {
 		}
 		return res
 	}
-	if sc.Kind == "armeffects" {
+	if sc.Kind == "armeffects" || sc.Kind == "armcalls" {
 		return p.scanArmEffects(sc, o, res)
 	}
 	if sc.Kind == "recursive" {
@@ -974,6 +1019,82 @@ func (p *Program) scanArmEffects(sc *Scan, o *Obl, res *UnitResult) *UnitResult 
 	}
 	if head == nil {
 		return fail("no loop around the opcode switch of " + sc.Target)
+	}
+	if sc.Kind == "armcalls" {
+		// armcalls <function>: <Op>=<callee>/<callee>/... - the functions and methods called (statically, or through
+		// an interface: by method name) in the blocks of the listed cases are among the listed names. Only the listed
+		// opcodes are checked.
+		var problems []string
+		checked := 0
+		for body, nms := range arms {
+			seenB := map[*ssa.BasicBlock]bool{}
+			calls := map[string]bool{}
+			var walk func(b *ssa.BasicBlock)
+			walk = func(b *ssa.BasicBlock) {
+				if b == head || seenB[b] {
+					return
+				}
+				seenB[b] = true
+				for _, in := range b.Instrs {
+					if ci, ok := in.(ssa.CallInstruction); ok {
+						cc := ci.Common()
+						switch {
+						case cc.IsInvoke():
+							calls[cc.Method.Name()] = true
+						case cc.StaticCallee() != nil:
+							calls[cc.StaticCallee().Name()] = true
+						default:
+							if _, isBuiltin := cc.Value.(*ssa.Builtin); !isBuiltin {
+								calls["<function value>"] = true
+							}
+						}
+					}
+				}
+				for _, sx := range b.Succs {
+					walk(sx)
+				}
+			}
+			walk(body)
+			for _, nm := range nms {
+				w, ok := want[nm]
+				if !ok {
+					continue
+				}
+				checked++
+				var extra []string
+				for c := range calls {
+					if !w[c] {
+						extra = append(extra, c)
+					}
+				}
+				sort.Strings(extra)
+				if len(extra) > 0 {
+					problems = append(problems, fmt.Sprintf("%s: calls %s (listed: %s)", nm, strings.Join(extra, ", "), strings.Join(sc.allowedFor(nm), "/")))
+				}
+			}
+		}
+		for nm := range want {
+			found := false
+			for _, nms := range arms {
+				for _, x := range nms {
+					if x == nm {
+						found = true
+					}
+				}
+			}
+			if !found {
+				problems = append(problems, nm+": listed but not a case of the switch")
+			}
+		}
+		sort.Strings(problems)
+		if len(problems) == 0 && checked > 0 {
+			o.Status = "unsat"
+			o.Output = fmt.Sprintf("%d listed cases of %s call only the listed functions", checked, sc.Target)
+		} else {
+			o.Status = "sat"
+			o.Output = strings.Join(problems, "; ")
+		}
+		return res
 	}
 	type eff struct {
 		d int
